@@ -1,4 +1,5 @@
 import XtModel.Lemmas.Chunker
+import XtModel.Lemmas.Output
 
 /-!
 # C03 — Multi-document and multi-input output is the ordered concatenation
@@ -11,6 +12,11 @@ it are the two named hypotheses `EventsMonotone` and `ChunksUtf8`
 Obligations of this file: `chunker_partition`, `chunker_lag_one`,
 `chunker_buffer_bounded`, `cutAfter_snoc`, `no_panic_chunker`, `no_panic_chunker_only_utf8`,
 `chunker_panics_without_hypotheses`, `trim_never_drainRange`.
+
+Part 2 (second section): `Translator` and the framing of the three streaming
+outputs over an arbitrary per-document behaviour of the serializer crates
+(`Model/Output.lean`).  Obligations: `translator_concat`, `translator_concat_calls`,
+`translator_concat_ok`, `json_frame_one_line_per_doc`, `yaml_frame`, `msgpack_frame`.
 -/
 namespace Xt.Props.C03
 open Xt.Chunker
@@ -248,6 +254,159 @@ example : (chunks true [0x20, 0x20, 0x61, 0x3a, 0x20, 0x31, 0x0a, 0x2e, 0x2e, 0x
 example : ∀ s, (chunks false exStream exEvents false).fin ≠ .panic s :=
   no_panic_chunker false exStream exEvents false ex_monotone ex_utf8
 
+end Xt.Props.C03
+
+/-! ## Part 2 — Translator and framing -/
+namespace Xt.Props.C03
+open Xt.Output
+
+variable {D E V : Type}
+
+/-- For EVERY behaviour of the crates on single documents, every streaming
+target and every list of inputs (each any number of documents followed or not
+by a source-side failure), fed to one translator until the first failure: the
+bytes written are the concatenation, in order, of what translating each
+document alone writes (`single`), over exactly the documents up to and
+including the first one that fails — nothing after a failure, everything
+before it — and the result is that first failure. -/
+theorem translator_concat (env : Env D E V) (t : Target) (ht : t ≠ .toml) (inputs : List (Input D E)) :
+    (session env t Out.empty inputs).1.sink
+      = (processed env t (flat inputs)).flatMap (single env t) ∧
+    (session env t Out.empty inputs).2 = firstError env t (flat inputs) := by
+  rw [session_stream env t ht]
+  refine ⟨?_, rfl⟩
+  simp only [Out.empty, List.nil_append]
+  congr 1
+  funext d
+  exact (single_eq_frame env t ht d).symm
+
+/-- The same for a translator that keeps being called after failed calls (the
+library API allows it): the output is the concatenation over the calls, each
+contributing its documents up to its own first failure; every call's result is
+its own first failure.  In particular the output object carries no state from
+one call to the next. -/
+theorem translator_concat_calls (env : Env D E V) (t : Target) (ht : t ≠ .toml) (inputs : List (Input D E)) :
+    (calls env t Out.empty inputs).1.sink
+      = inputs.flatMap (fun i => (processed env t (itemsOf i)).flatMap (single env t)) ∧
+    (calls env t Out.empty inputs).2 = inputs.map (fun i => firstError env t (itemsOf i)) := by
+  rw [calls_stream env t ht]
+  refine ⟨?_, rfl⟩
+  simp only [Out.empty, List.nil_append]
+  congr 1
+  funext i
+  congr 1
+  funext d
+  exact (single_eq_frame env t ht d).symm
+
+theorem processed_all_ok (env : Env D E V) (t : Target) (ds : List D)
+    (h : ∀ d ∈ ds, (env.body t d).2 = none) :
+    processed env t (ds.map .doc) = ds ∧ firstError env t (ds.map .doc) = .ok () := by
+  induction ds with
+  | nil => simp [processed, firstError]
+  | cons d ds ih =>
+    have hd := h d (by simp)
+    obtain ⟨i1, i2⟩ := ih (fun x hx => h x (by simp [hx]))
+    simp [processed, firstError, hd, i1, i2]
+
+theorem flat_no_fail (inputs : List (Input D E)) (h : ∀ i ∈ inputs, i.fail = none) :
+    flat inputs = (inputs.flatMap (·.docs)).map .doc := by
+  induction inputs with
+  | nil => rfl
+  | cons i is ih =>
+    have hi := h i (by simp)
+    have := ih (fun x hx => h x (by simp [hx]))
+    simp only [flat, List.flatMap_cons, List.map_append] at this ⊢
+    rw [this]
+    simp [itemsOf, hi]
+
+/-- When nothing fails: N documents distributed in any way over any number of
+calls give exactly the concatenation of the N single-document translations. -/
+theorem translator_concat_ok (env : Env D E V) (t : Target) (ht : t ≠ .toml) (inputs : List (Input D E))
+    (hsrc : ∀ i ∈ inputs, i.fail = none)
+    (hdoc : ∀ d ∈ inputs.flatMap (·.docs), (env.body t d).2 = none) :
+    (session env t Out.empty inputs).1.sink = (inputs.flatMap (·.docs)).flatMap (single env t) ∧
+    (session env t Out.empty inputs).2 = .ok () := by
+  obtain ⟨h1, h2⟩ := translator_concat env t ht inputs
+  rw [flat_no_fail inputs hsrc] at h1 h2
+  obtain ⟨p1, p2⟩ := processed_all_ok env t _ hdoc
+  rw [p1] at h1
+  rw [p2] at h2
+  exact ⟨h1, h2⟩
+
+/-- JSON: if no document's body contains a newline, splitting the output at
+newlines recovers exactly the bodies, in order, with nothing left over: one
+line per document. -/
+theorem json_frame_one_line_per_doc (env : Env D E V) (inputs : List (Input D E))
+    (hsrc : ∀ i ∈ inputs, i.fail = none)
+    (hdoc : ∀ d ∈ inputs.flatMap (·.docs), (env.body .json d).2 = none)
+    (hnl : ∀ d ∈ inputs.flatMap (·.docs), ∀ b ∈ (env.body .json d).1, b ≠ 0x0A) :
+    splitLines (session env .json Out.empty inputs).1.sink
+      = ((inputs.flatMap (·.docs)).map (fun d => (env.body .json d).1), []) := by
+  rw [(translator_concat_ok env .json (by decide) inputs hsrc hdoc).1]
+  generalize inputs.flatMap (·.docs) = ds at hdoc hnl
+  induction ds with
+  | nil => simp [splitLines]
+  | cons d ds ih =>
+    have hd := hdoc d (by simp)
+    have ih' := ih (fun x hx => hdoc x (by simp [hx])) (fun x hx => hnl x (by simp [hx]))
+    have hs : single env .json d = (env.body .json d).1 ++ [0x0A] := by
+      rw [single_eq_frame env .json (by decide)]
+      unfold frame
+      cases hb : env.body .json d with
+      | mk bs e => rw [hb] at hd; simp at hd; subst hd; rfl
+    simp only [List.flatMap_cons, List.map_cons, hs]
+    rw [splitLines_frame _ _ (hnl d (by simp)), ih']
+
+/-- YAML: the output is `---\n` ++ body for every document, in order. -/
+theorem yaml_frame (env : Env D E V) (inputs : List (Input D E))
+    (hsrc : ∀ i ∈ inputs, i.fail = none)
+    (hdoc : ∀ d ∈ inputs.flatMap (·.docs), (env.body .yaml d).2 = none) :
+    (session env .yaml Out.empty inputs).1.sink
+      = (inputs.flatMap (·.docs)).flatMap (fun d => [0x2D, 0x2D, 0x2D, 0x0A] ++ (env.body .yaml d).1) := by
+  rw [(translator_concat_ok env .yaml (by decide) inputs hsrc hdoc).1]
+  congr 1
+  funext d
+  rw [single_eq_frame env .yaml (by decide)]
+  rfl
+
+/-- MessagePack: the output is the bodies back to back. -/
+theorem msgpack_frame (env : Env D E V) (inputs : List (Input D E))
+    (hsrc : ∀ i ∈ inputs, i.fail = none)
+    (hdoc : ∀ d ∈ inputs.flatMap (·.docs), (env.body .msgpack d).2 = none) :
+    (session env .msgpack Out.empty inputs).1.sink
+      = (inputs.flatMap (·.docs)).flatMap (fun d => (env.body .msgpack d).1) := by
+  rw [(translator_concat_ok env .msgpack (by decide) inputs hsrc hdoc).1]
+  congr 1
+  funext d
+  rw [single_eq_frame env .msgpack (by decide)]
+  rfl
+
+/-! ### Non-vacuity: documents are byte strings that serialize as themselves,
+except the document `[0xFF]`, whose serializer fails after writing `[0x7B]`. -/
+
+def exEnv : Env Bytes Nat Nat where
+  body := fun _ d => if d = [0xFF] then ([0x7B], some 7) else (d, none)
+  build := fun _ => .error 0
+  isTable := fun _ => false
+  pretty := fun _ => .error 0
+
+example : (session exEnv .json Out.empty [⟨[[0x31], [0x32]], none⟩, ⟨[], none⟩, ⟨[[0x33]], none⟩]).1.sink
+    = [0x31, 0x0A, 0x32, 0x0A, 0x33, 0x0A] := by
+  rw [(translator_concat_ok exEnv .json (by decide) _ (by simp) (by simp [exEnv])).1]
+  decide
+
+/-- Stops at the failing second document: everything before it, its partial
+output, nothing after. -/
+example : (session exEnv .yaml Out.empty [⟨[[0x31], [0xFF], [0x32]], none⟩, ⟨[[0x33]], none⟩]).1.sink
+      = [0x2D, 0x2D, 0x2D, 0x0A, 0x31, 0x2D, 0x2D, 0x2D, 0x0A, 0x7B] ∧
+    (session exEnv .yaml Out.empty [⟨[[0x31], [0xFF], [0x32]], none⟩, ⟨[[0x33]], none⟩]).2
+      = .error (.other 7) := ⟨by decide, rfl⟩
+
+example : splitLines (session exEnv .json Out.empty [⟨[[0x31], [0x32, 0x32]], none⟩, ⟨[[0x33]], none⟩]).1.sink
+    = ([[0x31], [0x32, 0x32], [0x33]], []) := by
+  rw [json_frame_one_line_per_doc exEnv _ (by simp) (by simp [exEnv]) (by simp [exEnv])]
+  decide
+
 #print axioms chunker_partition
 #print axioms chunker_lag_one
 #print axioms chunker_buffer_bounded
@@ -256,5 +415,11 @@ example : ∀ s, (chunks false exStream exEvents false).fin ≠ .panic s :=
 #print axioms chunker_panics_without_hypotheses
 #print axioms trim_never_drainRange
 #print axioms cutAfter_snoc
+#print axioms translator_concat
+#print axioms translator_concat_calls
+#print axioms translator_concat_ok
+#print axioms json_frame_one_line_per_doc
+#print axioms yaml_frame
+#print axioms msgpack_frame
 
 end Xt.Props.C03
